@@ -18,6 +18,12 @@ def sug(w, n=1, ps=('p1',), raise_=False):
   return {'rpc': 'SuggestTrials', 's': 's1', 'w': w, 'n': n, 'env': {'raise': raise_, 'ps': list(ps), 'md': dict(NM)}}
 
 
+def sug_md(w, v):
+  c = sug(w)
+  c['env']['md'] = {'c1': v}
+  return c
+
+
 CS = {'rpc': 'CreateStudy', 's': 's1', 'cfg': 'max1'}
 REQ = {'rpc': 'CreateTrial', 's': 's1', 'p': 'p2', 'c': 'None'}
 ADD = {'rpc': 'CreateTrial', 's': 's1', 'p': 'p2', 'c': 'm1'}
@@ -71,6 +77,9 @@ SCENARIOS = [
     ('suggest_setstate', P0, {'A': sug('w1'), 'B': setst('INACTIVE')}, 2),
     ('suggest_deletestudy', P0, {'A': sug('w1'), 'B': DELS}, 2),
     ('suggest_study_metadata', P0, {'A': sug('w1'), 'B': md_study('v1')}, 2),
+    # found by TLC on Spec B (VizierConcurrent.tla): the algorithm's own study metadata vs a study-state change
+    ('suggest_algometa_setstate', P0, {'A': sug_md('w1', 'v2'), 'B': setst('INACTIVE')}, None),
+    ('suggest_algometa_study_metadata', P0, {'A': sug_md('w1', 'v2'), 'B': md_study('v1')}, 2),
     ('suggest_earlystop', P_ACT, {'A': sug('w2', ps=('p2',)), 'B': es(1)}, 2),
     ('complete_stop', P_ACT, {'A': comp(1), 'B': STOP1}, None),
     ('complete_complete', P_ACT, {'A': comp(1, 'm1'), 'B': comp(1, 'm2')}, None),
@@ -207,6 +216,28 @@ def symptom(events, calls, deadlock):
   return out
 
 
+def spec_b(ctx, d):
+  """Layer 1: TLC on the lock-protocol model (VizierConcurrent.tla / MCB.tla): every interleaving of every scenario."""
+  out = {}
+  for name, procs, scen in (('pairs', {'A', 'B'}, 'MCScenarios2'), ('triples', {'A', 'B', 'C'}, 'MCScenarios3')):
+    cfg = os.path.join(d, 'B_%s.cfg' % name)
+    with open(cfg, 'w') as f:
+      f.write('SPECIFICATION Spec\nCONSTANTS\n  Studies = {"s1"}\n  Clients = {"w1", "w2"}\n  MaxId = 4\n  Cells = {"c1"}\n  Recycle = "always"\n'
+              '  Procs = %s\n  Scenarios <- %s\nCONSTRAINT SerReport\nCONSTRAINT StuckReport\nINVARIANT LocksFreeAtEnd\nPROPERTY Termination\nCHECK_DEADLOCK FALSE\n'
+              % (tlc.tla_value(procs), scen))
+    res = tlc.must_ok(tlc.run_tlc('MCB', cfg, d, workers=8, timeout=3000), 'MCB/' + name)
+    reports = re.findall(r'<< "(NONSER|STUCK)",\s*"(\w+)",\s*(\[[^\]]*\]),\s*(\[[^\]]*\]) >>', res.out)
+    out[name] = {'distinct_states': res.distinct, 'generated': res.generated, 'violated': res.violated, 'reports': len(reports)}
+    for kind, scen_name, calls, results in {r for r in reports}:
+      ctx.violation({'via': 'specB', 'kind': kind, 'calls': re.sub(r'\s+', ' ', calls)},
+                    {'kind': 'specB', 'what': 'design-level: some interleaving of the lock protocol model is not explained by any serial order' if kind == 'NONSER'
+                     else 'design-level: an operation is left unfinished', 'scenario_prefix': scen_name, 'calls': re.sub(r'\s+', ' ', calls), 'results': re.sub(r'\s+', ' ', results)})
+    for v in res.violated:
+      ctx.violation({'via': 'specB', 'kind': v}, {'kind': 'specB', 'what': 'model property violated: ' + v, 'trace': res.trace_text()[:3000]})
+    ctx.log('Spec B %s: %d distinct states, every interleaving serializable / terminating: %s' % (name, res.distinct, not reports and not res.violated))
+  return out
+
+
 def run(ctx, only=None):
   import world  # noqa: F401
   cov = ctx.coverage
@@ -226,6 +257,8 @@ def run(ctx, only=None):
   rejected_total = 0
   cov['scenarios'] = []
   with tlc.Scratch('c04') as d:
+    if not only:
+      cov['spec_b'] = spec_b(ctx, d)
     with cf.ProcessPoolExecutor(max_workers=16, mp_context=multiprocessing.get_context('fork')) as ex:
       results = list(ex.map(explore_scenario, jobs))
     all_traces = []
@@ -257,7 +290,9 @@ def run(ctx, only=None):
     for s in cov['scenarios']:
       s['rejected'] = per.get(s['name'], 0) if s['backend'] == 'ram' or True else 0
     ctx.log('VizierLin: %d traces, %d rejected (%s); TLC %d states' % (len(all_traces), rejected_total, dict(per), res.distinct))
-    cov.update({'states': res.distinct, 'transitions': res.generated, 'traces_validated_against_impl': len(all_traces)})
+    sb = cov.get('spec_b', {})
+    cov.update({'states': res.distinct + sum(v['distinct_states'] for v in sb.values()), 'transitions': res.generated + sum(v['generated'] for v in sb.values()),
+                'traces_validated_against_impl': len(all_traces)})
     if index:
       name, b, schedule, events, labels, calls, prefix = index[len(index) // 2]
       ctx.sample({'scenario': name, 'schedule': ''.join(schedule), 'yield_sequence': ['%s:%s' % x for x in labels][:30]})
